@@ -16,6 +16,7 @@ HASH = r"std::collections::HashMap::<std::vec::Vec<u8>, std::vec::Vec<u8>>::"
 MAP = shared.SHARD_MAP
 SKIP = r"storage::skiplist::SkipList::<std::vec::Vec<u8>, f64>::"
 STREAM = r"storage::stream::Stream::"
+SET_ITER = r"(" + SET + r"(iter|union|intersection|difference)|<&std::collections::HashSet<std::vec::Vec<u8>> as std::iter::IntoIterator>::into_iter)"
 
 SPEC = {
     # C01
@@ -40,14 +41,14 @@ SPEC = {
     "LPOP": ("W", VEC + "pop_front"), "RPOP": ("W", VEC + "pop_back"),
     "LLEN": ("R", VEC + "len"), "LRANGE": ("R", VEC + "(iter|get|range)"), "LINDEX": ("R", VEC + "get"),
     "LSET": ("W", r"(<std::collections::VecDeque<std::vec::Vec<u8>> as std::ops::IndexMut<usize>>::index_mut|" + VEC + "get_mut)"),
-    "LTRIM": ("W", VEC + "(drain|truncate|retain|pop_front|pop_back|split_off)"),
+    "LTRIM": ("W", None),
     "LREM": ("W", VEC + "(retain|remove|drain)"),
     # sets
-    "SADD": ("W", SET + "insert"), "SREM": ("W", SET + "remove"), "SMEMBERS": ("R", SET + "iter"),
+    "SADD": ("W", SET + "insert"), "SREM": ("W", SET + "remove"), "SMEMBERS": ("R", SET_ITER),
     "SISMEMBER": ("R", SET + "contains"), "SCARD": ("R", SET + "len"),
-    "SUNION": ("R", SET + "(iter|union)"), "SINTER": ("R", SET + "(iter|contains|intersection|retain)"),
-    "SDIFF": ("R", SET + "(iter|contains|difference|retain)"),
-    "SPOP": ("W", SET + "(remove|take|retain)"), "SRANDMEMBER": ("R", SET + "iter"),
+    "SUNION": ("R", SET_ITER), "SINTER": ("R", SET_ITER + "|" + SET + "contains"),
+    "SDIFF": ("R", SET_ITER + "|" + SET + "contains"),
+    "SPOP": ("W", SET + "(remove|take|retain)"), "SRANDMEMBER": ("R", SET_ITER),
     # hashes
     "HSET": ("W", HASH + "insert"), "HMSET": ("W", HASH + "insert"), "HGET": ("R", HASH + "get"),
     "HMGET": ("R", HASH + "get"), "HGETALL": ("R", HASH + "iter"), "HDEL": ("W", HASH + "remove"),
@@ -339,31 +340,38 @@ def rule_atomic(pid):
 # R-EMPTY
 
 def rule_empty(ctx, R):
-    """every engine method that SHRINKs a collection payload has, reachable from the shrink,
-    an emptiness test of a collection whose empty edge reaches a removal from the shard map."""
+    """every engine method that SHRINKs a stored collection (or replaces it wholesale) has,
+    reachable from the shrink, an emptiness test of a stored collection from which a removal of the
+    key from the shard map is reachable (may-pair: cannot be falsified by an infeasible path)."""
     n = 0
     for fn, b in sorted(shared.engine_bodies(ctx.prog).items()):
-        shr = [(i, t["f"]) for i, t in b.calls() if shared.SHRINK.search(t["f"]) and not shared.is_purge_block(b, i)]
-        # value-level whole-payload replacement (e.g. list rebuilt) is not a shrink primitive
-        if not shr:
+        sites = [(i, shared.short_callee(f)) for (i, k, f) in shared.data_mut_sites(b)
+                 if k == "payload" and shared.SHRINK.search(f) and not shared.is_purge_block(b, i)]
+        # wholesale replacement of a stored collection (`*list = new_list`)
+        for (i, st) in shared.payload_stores(b):
+            ty = b.locals[st["l"]["l"]]
+            if re.search(r"&mut std::collections::(VecDeque|HashSet|HashMap)<", ty) and st["l"]["p"] == ["*"]:
+                sites.append((i, "replace-collection"))
+        if not sites:
             continue
         removes = [i for i, t in b.calls() if re.search(shared.SHARD_MAP + r"remove\b", t["f"])]
-        empties = [i for i, t in b.calls() if re.search(r"::(is_empty|len)$", re.sub(r"::<.*$", "", t["def"])) and
-                   re.search(r"VecDeque|HashSet|HashMap::<std::vec::Vec<u8>, std::vec::Vec<u8>>|SkipList", t["f"])]
-        for i, f in shr:
+        empties = []
+        for i, t in b.calls():
+            f = t["f"] or ""
+            if re.search(r"^(std::collections::(VecDeque|HashSet)::<std::vec::Vec<u8>>|std::collections::HashMap::<std::vec::Vec<u8>, std::vec::Vec<u8>>|storage::skiplist::SkipList::<std::vec::Vec<u8>, f64>)::(is_empty|len)$", f):
+                if t["a"] and shared.from_dataset(b, t["a"][0]):
+                    empties.append(i)
+        seen = set()
+        for i, short in sites:
+            if short in seen:
+                continue
+            seen.add(short)
             n += 1
-            short = re.sub(r"<.*?>", "", f).split("::")[-1]
-            after = cfg.fwd(b, [b.term(i)["t"]]) if b.term(i)["t"] >= 0 else set()
-            ok = False
-            for e in empties:
-                if e not in after and e != i:
-                    continue
-                ae = cfg.fwd_strict(b, e)
-                if any(r in ae for r in removes):
-                    ok = True
-            R.inst(fn, "shrink:" + short, {"function": fn, "shrink": short, "at": b.loc(i), "emptiness_tests": len(empties), "key_removals": len(removes)})
+            after = cfg.fwd(b, [i])
+            ok = any(e in after and any(r in cfg.fwd_strict(b, e) for r in removes) for e in empties)
+            R.inst(fn, "shrink:" + short, {"function": fn[len(ENGINE):], "shrink": short, "at": b.loc(i), "emptiness_tests": len(empties), "key_removals": len(removes), "paired": ok})
             if not ok:
                 R.finding(fn, "shrink-without-empty-removal:" + short,
-                          "collection shrunk by %s (line %d) but no emptiness test followed by removal of the key is reachable: an emptied collection would keep existing as a key"
+                          "stored collection shrunk by %s (line %d) but no emptiness test followed by removal of the key is reachable: an emptied collection would keep existing as a key"
                           % (short, b.bb_line(i)), b.loc(i))
     R.floor("shrink_sites", n)
